@@ -457,10 +457,15 @@ def random_schema(rng, ntypes=None, cpp_full=False, allow_float=True, allow_gree
         counter[0] += 1
         return "%s%d" % (p, counter[0])
 
-    def pick_fixed():
+    from .wire import Wire
+    wire = Wire(s)
+
+    def pick_fixed(max_size=256):
         r = rng.random()
         if fixed_types and r < 0.45:
-            return rng.choice(fixed_types)
+            t = rng.choice(fixed_types)
+            if wire.tinfo(t)[0] <= max_size:     # keeps messages small: nested arrays multiply
+                return t
         return rng.choice(scal)
 
     for _ in range(ntypes):
@@ -517,14 +522,14 @@ def random_schema(rng, ntypes=None, cpp_full=False, allow_float=True, allow_gree
                     else:
                         c = rng.choice(consts) if consts and rng.random() < 0.3 else None
                         if c:
-                            members.append(Member(fname, pick_fixed(), FIXED, c.value, size_text=c.name))
+                            members.append(Member(fname, pick_fixed(48), FIXED, c.value, size_text=c.name))
                         else:
-                            members.append(Member(fname, pick_fixed(), FIXED, rng.randint(1, 3)))
+                            members.append(Member(fname, pick_fixed(48), FIXED, rng.randint(1, 3)))
                 elif k < 0.60:
                     if rng.random() < 0.25:
                         members.append(Member(fname, 'byte', LIMITED, rng.randint(1, 5)))
                     else:
-                        members.append(Member(fname, pick_fixed(), LIMITED, rng.randint(1, 3)))
+                        members.append(Member(fname, pick_fixed(48), LIMITED, rng.randint(1, 3)))
                 elif k < 0.75:
                     r2 = rng.random()
                     if r2 < 0.2:
